@@ -493,3 +493,12 @@ package client
 //@   requires c != nil && m != nil && reqDecoded(m)
 //@   modifies c.version1Cache.cache, c.version1Cache.cache[*], ghost("held")
 //@   ensures !held(&c.version1Cache.mu)
+
+// Sync requests (C12). What the decoder guarantees for a sync message: the transaction may be empty (no state).
+//@ pred syncDecoded(m *ChannelSyncMsg) = m != nil && (m.CurrentTX.State != nil ==> stateDecoded(m.CurrentTX.State))
+//@ func (*clientConn).pubMsg
+//@   trusted
+//@   requires c != nil && msg != nil
+//@ func (*Client).handleSyncMsg
+//@   requires c != nil && c.log != nil && syncDecoded(msg)
+//@   modifies *
